@@ -362,8 +362,11 @@ pub fn cmd_gen_cmp(seed: u64, count: usize, out: &str, ty: &str) {
     let mut rng = StdRng::seed_from_u64(seed);
     let mut f = std::io::BufWriter::new(std::fs::File::create(out).expect("create"));
     let maxsym: u64 = if ty == "u8" { 250 } else { 60000 };
-    for _ in 0..count {
-        let nsym = rng.gen_range(1..5);
+    for scn in 0..count {
+        // every fifth scenario: 11-13 symbols with frequencies 1, 1, 2, 4, ... so that the rare symbols get codes
+        // longer than 8 bits (the decoder's second-level tables), and items that END in those symbols
+        let deep = scn % 5 == 4;
+        let nsym = if deep { rng.gen_range(11..14) } else { rng.gen_range(1..5) };
         let mut syms: Vec<u64> = vec![];
         while syms.len() < nsym {
             let s = rng.gen_range(0..maxsym);
@@ -392,11 +395,27 @@ pub fn cmd_gen_cmp(seed: u64, count: usize, out: &str, ty: &str) {
             }
             items.push(it);
         }
+        if deep {
+            let (common, rare, rare2) = (syms[nsym - 1], syms[0], syms[1]);
+            items.push(vec![common, rare]);
+            items.push(vec![rare]);
+            items.push(vec![rare2, common, rare2]);
+            items.push(vec![common, common, common, rare]);
+        }
         let mut ops: Vec<Value> = vec![];
         for it in &items {
             ops.push(json!({"op": "push", "s": 1, "v": it}));
         }
         // make sure every symbol is in the statistics
+        if deep {
+            let mut skewed: Vec<u64> = vec![];
+            for (k, sy) in syms.iter().enumerate() {
+                for _ in 0..(1u32 << k.saturating_sub(1)) {
+                    skewed.push(*sy);
+                }
+            }
+            ops.push(json!({"op": "push", "s": 2, "v": skewed}));
+        }
         ops.push(json!({"op": "push", "s": 2, "v": syms}));
         ops.push(json!({"op": "merge", "d": 3, "srcs": [1, 2]}));
         let mut order: Vec<usize> = (0..items.len()).collect();
